@@ -111,6 +111,13 @@ func main() {
 			rep := e.VerifyFunc(fn, *mode)
 			res := Discharge(append(rep.Obs, rep.Vacuity...), runOpts{timeoutS: *tmo, workers: 16})
 			fmt.Printf("== %s mode=%s paths=%d obligations=%d aborted=%q\n", rep.Func, rep.Mode, rep.Paths, len(res), rep.Aborted)
+			if os.Getenv("HV_NOTES") != "" {
+				for _, n := range rep.Notes {
+					fmt.Println("   note:", n)
+				}
+				fmt.Println("   inlined:", rep.Inlined)
+				fmt.Println("   unverified contracts used:", rep.Unverified)
+			}
 			for _, r := range res {
 				if r.Status != "discharged" || *verbose {
 					fmt.Printf("   %-11s %-70s %s %.2fs paths=%d  %s\n", r.Status, r.Name, r.Solver, r.TimeS, r.Paths, r.Src)
